@@ -93,7 +93,7 @@ def generate(ctx: Ctx, rep: Report) -> list:
         jobs.append(("exh4", "Simulator.tla", "Simulator_depth4.cfg", {},
                      "all call histories of depth 4 over the reduced 15-operation menu; 7 invariants at every state"))
         jobs.append(("deep", "Simulator.tla", "Simulator_deep.cfg",
-                     dict(simulate="num=60", depth=9, seed=ctx.seed, workers=8),
+                     dict(simulate="num=40", depth=9, seed=ctx.seed, workers=8),
                      "seeded -simulate behaviours of depth 8 (and the siblings of their last call)"))
 
     def go(job):
@@ -169,8 +169,14 @@ def rendering_notes(rep: Report, outs: list) -> None:
             "protocol_by_hand_made_dataframe")
     tot = {k: sum(st.get(k, 0) for _, st in outs) for k in keys}
     rep.notes["protocol_tables_written"] = tot
-    if min(tot.values()) == 0:
-        raise MachineryError(f"vacuity: a way of writing protocol tables is never used: {tot}")
+    fam = {"histories_with_time_dependent_inflow": sum(st.get("ramp", 0) for _, st in outs),
+           "histories_with_assignment_defined_initial_value": sum(st.get("ia", 0) for _, st in outs)}
+    rep.notes["model_family_members"] = fam
+    rep.notes["start_state_of_a_simulator_that_has_not_run(assignment-defined, parameters updated first)"] = {
+        "as_at_construction": sum(st.get("start_state_as_at_construction", 0) for _, st in outs),
+        "follows_current_parameters": sum(st.get("start_state_follows_current_parameters", 0) for _, st in outs)}
+    if not rep.violations and (min(tot.values()) == 0 or min(fam.values()) == 0):
+        raise MachineryError(f"vacuity: a way of writing protocol tables / a family member is never used: {tot} {fam}")
 
 
 def _replay(h):
@@ -211,8 +217,10 @@ class _Flat:
 
     bases = {0: 0.0}
 
-    def __init__(self, r):
+    def __init__(self, r, ramp=False):
         self.r = r
+        self.ramp = simkit.ramp_rate(r) if ramp else 0.0
+        self.ia = False
 
     def t(self, tm):
         return tm["o"] * self.r.ts + tm.get("e", 0) * self.r.eps
@@ -296,13 +304,14 @@ def trace_direction(ctx: Ctx, rep: Report, prop: str, n: int, length: int, weigh
         st = v["st"]
         obs = []
         last = t["ev"][-1]["segs"] if t["ev"] else []
-        flat = _Flat(simkit.RENDERINGS[t["rendering"]])
+        flat = _Flat(simkit.RENDERINGS[t["rendering"]], t.get("ramp", False))
         for seg, xs in zip(last, t["values"]):
             obs.append({"t": [flat.enc(o) for o in seg["times"]], "x": xs,
-                        "p": {"kin": seg["kin"] * flat.r.ps, "k": seg["kk"] * flat.r.ps}})
+                        "p": {"kin": seg["kin"] * flat.r.ps, "k": seg["kk"] * flat.r.ps,
+                              **({"r": flat.ramp} if flat.ramp else {})}})
         bad = simkit.compare(flat, st, obs if obs else None)
         if bad:
-            det = {**bad, "step": len(t["ev"]) - 1}
+            det = {**bad, "step": len(t["ev"]) - 1, "rendering": t["rendering"] + ("+ramp" if t.get("ramp") else "")}
             rep.mismatch({"trace": t["ev"], "seed": t["seed"], "rendering": t["rendering"]}, det,
                          simkit.classify(steps, det))
             continue
@@ -427,13 +436,13 @@ def run(ctx: Ctx) -> int:
             worst = max(worst, stats.get("worst", 0.0))
             nvals += stats.get("n", 0)
     rep.notes["values_compared_with_closed_form"] = nvals
-    rendering_notes(rep, outs)
     rep.notes["worst_error_over_tolerance"] = round(worst, 4)
     rep.notes["fragile_rows_judged_at_integrator_atol(|x|<1e-1)"] = sum(st.get("fragile", 0) for _, st in outs)
+    rendering_notes(rep, outs)
     for h in hs[:: max(1, len(hs) // 3)][:3]:
         rep.sample({"calls": [s["op"] for s in h], "refused": [s["raised"] for s in h],
                     "predicted_index_ticks": [[show_time(q) for q in g["times"]] for g in h[-1]["st"]["segs"]]})
-    trace_direction(ctx, rep, PROP, 600 if ctx.quick else 12000, 8 if ctx.quick else 10, None, "driver")
+    trace_direction(ctx, rep, PROP, 600 if ctx.quick else 8000, 8 if ctx.quick else 10, None, "driver")
     repo_tests_direction(ctx, rep)
     return rep.finish()
 
